@@ -561,6 +561,10 @@ def modelled(f, values):
     """is (field, values) inside the model's declared domain?"""
     if nonidempotent_container(f):
         return False
+    if f.get("k") == "list" and isinstance(f.get("item"), dict) and f["item"].get("k") == "any" and (f["item"].get("required") or f["item"].get("custom")):
+        # ListField.__setdefault__ wraps a list default in a proxy whenever an item field is given, so an AnyField item's own
+        # required / custom check runs on default items; the model treats AnyField items as untyped throughout
+        return False
     strs = []
     for v in values:
         strings_in(v, strs)
